@@ -64,6 +64,10 @@ TRUSTED = ["oracles: CPython int()/float() string parsing, str.lower/strip, PyYA
 # --------------------------------------------------------------------------
 
 
+class StrSub(str):
+    """A `str` subclass (YAML loaders and config layers produce these)."""
+
+
 def enc(x: Any) -> Any:
     if x is None or isinstance(x, bool):
         return x
@@ -72,7 +76,9 @@ def enc(x: Any) -> Any:
     if isinstance(x, float):
         return {"f": core.f2b(x)}
     if isinstance(x, str):
-        return {"s": x}
+        return {"s": x} if type(x) is str else {"S": str(x)}
+    if isinstance(x, (bytes, bytearray)):
+        return {"b": bytes(x).hex()}
     if isinstance(x, (list, tuple)):
         return {"l": [enc(v) for v in x]}
     if isinstance(x, dict):
@@ -89,6 +95,10 @@ def dec(x: Any) -> Any:
         return core.b2f(x["f"])
     if "s" in x:
         return x["s"]
+    if "S" in x:
+        return StrSub(x["S"])
+    if "b" in x:
+        return bytes.fromhex(x["b"])
     if "l" in x:
         return [dec(v) for v in x["l"]]
     return {dec(k): dec(v) for k, v in x["d"]}
@@ -134,6 +144,8 @@ def table() -> dict:
             if r["kind"] in ("num", "enum"):
                 p = tuple(r["path"].split("."))
                 (num if r["kind"] == "num" else enum)[p] = r
+        for r in t.get("enum_checks", []):
+            enum[tuple(r["path"].split("."))] = r
         typed_msgs = set(V.typed_messages(t))
         opaque_msgs_paths = set(o["path"] for o in t["opaque"])
         aliases: List[Tuple[Tuple[str, ...], Tuple[str, ...]]] = []
@@ -214,6 +226,27 @@ DUP_SITE_OF = {"fixtures_path_twice": "t3.llm.fixtures.path", "cooldowns_nonstr_
                "partitions_by_repeated": "f'perf.t2.reader.partitions.by[{fld}]'"}
 # duplicate-capable by source text but not reachable twice: the checked value is a constant default
 DUP_UNREACHABLE = {"t2.quality.fusion.alpha_semantic"}
+
+
+def gen_cross_config(rng: random.Random) -> Tuple[Any, List[str]]:
+    """Small / large legal values on 2-4 numeric leaves of DIFFERENT sections (int-coerced ones mostly):
+    a value in one section must not rewrite another section's accepted leaf."""
+    T = table()
+    paths = sorted(p for p, r in T["num"].items() if p[0] not in ("perf",) and p[:2] != ("t2", "quality"))
+    cfg: Any = {} if rng.random() < 0.6 else copy.deepcopy(T["defaults"])
+    cfg.pop("perf", None) if isinstance(cfg, dict) else None
+    used = set()
+    for p in rng.sample(paths, k=rng.choice([2, 3, 4])):
+        if p[:-1] in used:
+            continue
+        used.add(p[:-1])
+        r = T["num"][p]
+        lo = max(guard_consts(r["guard"])) if r["doc"] and r["doc"][0] in ("ge", "gt") else min(guard_consts(r["guard"]))
+        v = lo + rng.choice([0, 1, 1, 2, 3, 5, 9]) if r["co"] == "int" else rng.choice([lo, lo + 0.25, lo + 0.5, 1.0])
+        if r["doc"] and r["doc"][0] == "gt" and v == lo:
+            v = lo + 1
+        _set_path(cfg, p, v)
+    return cfg, ["cross_section"]
 
 
 def gen_dup_config(rng: random.Random, recipe: Optional[str] = None) -> Tuple[Any, List[str]]:
@@ -302,10 +335,35 @@ def num_values(rng: random.Random, rule: Optional[dict]) -> Any:
     return rng.choice(WEIRD)
 
 
+def enum_variants(m: str) -> List[Any]:
+    """Spellings of a documented value: original, upper, title, swapped case, padded, bytes, str subclass, near-misses."""
+    return [m, m.upper(), m.title(), m.capitalize(), m.swapcase(), m[:1].upper() + m[1:], " " + m, m + " ", " " + m + " ",
+            m + "\t", m.upper() + " ", m.encode(), StrSub(m), StrSub(m.upper()), m[:-1], m + "x", m.replace("_", "-"),
+            m.replace("-", "_"), m[::-1]]
+
+
 def enum_values(rng: random.Random, rule: dict) -> Any:
     m = rng.choice(rule["allowed"])
-    return rng.choice([m, m, m.upper(), m.capitalize(), m + " ", " " + m, m[:-1], "x", "", None, True, False, 0, 1, 1.5, [], {},
-                       "none", "None", "NONE", NANV])
+    if rng.random() < 0.6:
+        return rng.choice(enum_variants(m))
+    return rng.choice([m, "x", "", None, True, False, 0, 1, 1.5, [], {}, "none", "None", "NONE", NANV])
+
+
+def enum_sweep_cases() -> List[dict]:
+    """Every enumeration check × every documented value × every spelling variant (systematic)."""
+    T = table()
+    out = []
+    for p, r in sorted(T["enum"].items()):
+        for m in r["allowed"]:
+            for v in enum_variants(m):
+                cfg: Any = {}
+                if p[0] == "perf":
+                    cfg = {"perf": {"enabled": True}}
+                if p[:2] == ("t2", "quality"):
+                    cfg = {"t2": {"quality": {"enabled": False}}}
+                _set_path(cfg, p, v)
+                out.append({"cfg": enc(cfg), "gtags": ["enum_sweep"]})
+    return out
 
 
 def typo(rng: random.Random, k: str) -> str:
@@ -543,6 +601,67 @@ def call_apis(cfg: Any) -> dict:
     return rec
 
 
+def _py_deep_merge(dst: dict, src: dict) -> dict:
+    out = dict(dst)
+    for k, v in src.items():
+        if isinstance(v, dict) and isinstance(out.get(k), dict):
+            out[k] = _py_deep_merge(out[k], v)
+        elif k not in out:
+            out[k] = v
+    return out
+
+
+def _leaves(x: Any, pre: Tuple = ()):
+    if isinstance(x, dict) and x:
+        for k, v in x.items():
+            yield from _leaves(v, pre + (k,))
+    else:
+        yield pre, x
+
+
+def unaccounted_changes(cfg: Any, norm: Any) -> List[str]:
+    """Generic cross-section monitor.  Expected = deep_merge(input, DEFAULTS).  A leaf of the returned
+    config may differ from it only where the normaliser is known to act: a rule's output path (those
+    leaves are compared with the model's value by the Lean monitor), a key the normaliser reads or
+    writes by name, a section it rebuilds (`perf`, `t2.quality`), or a section it replaces wholesale
+    because the input was not a dict.  Everything else must come through untouched."""
+    T = table()
+    t = T["t"]
+    if not isinstance(cfg, dict) or not isinstance(norm, dict):
+        return []
+    dfl = {k: v for k, v in T["defaults"].items() if k != "perf" or "perf" in cfg}
+    exp = _py_deep_merge(cfg, dfl)
+    acted = set(t["touched"])
+    for r in list(t["rules"]) + t.get("enum_checks", []):
+        if r["kind"] in ("num", "enum") and r.get("out"):
+            acted.add(tuple(r["out"]))
+    acted.add(("version",))
+
+    def accounted(p: Tuple) -> bool:
+        if not all(isinstance(k, str) for k in p):
+            return p[:2] == ("t4", "cooldowns")
+        if p[:1] == ("perf",) or p[:2] == ("t2", "quality") or p[:2] == ("t2", "lancedb") or p[:2] == ("t4", "cooldowns"):
+            return True
+        for i in range(1, len(p) + 1):
+            if p[:i] in acted and (i == len(p) or p[:i] not in T["sections"]):
+                return True
+        # a non-dict value where a section is expected is replaced by the section's defaults
+        d = cfg
+        for i, k in enumerate(p[:-1]):
+            d = d.get(k) if isinstance(d, dict) else None
+            if not isinstance(d, dict):
+                return p[:i + 1] in T["sections"]
+        return False
+    bad = []
+    le, ln = dict(_leaves(exp)), dict(_leaves(norm))
+    for p in sorted(set(le) | set(ln), key=repr):
+        a, b = le.get(p, "<absent>"), ln.get(p, "<absent>")
+        if (a == "<absent>") != (b == "<absent>") or (a != "<absent>" and not deq(a, b)):
+            if not accounted(p):
+                bad.append(f"{'.'.join(map(str, p))}: expected {a!r:.60} got {b!r:.60}")
+    return bad
+
+
 def aliasing(cfg: Any, norm: Any) -> int:
     """Number of mutable containers shared between input and output (informational)."""
     ids = set()
@@ -578,12 +697,17 @@ class ValidMsgs(Component):
     name = "valid"
     budget = {"quick": 2500, "thorough": 40000, "search": 40000}
 
+    def corpus(self, ctx: "Ctx") -> List[dict]:
+        return list(ctx.load_corpus(self.name)) + enum_sweep_cases()
+
     def gen(self, rng: random.Random, i: int) -> dict:
         r0 = rng.random()
         if r0 < 0.06:
             cfg, tags = gen_dup_config(rng, DUP_RECIPES[i % len(DUP_RECIPES)] if i < 4 * len(DUP_RECIPES) else None)
         elif r0 < 0.18:
             cfg, tags = gen_alias_config(rng)
+        elif r0 < 0.26:
+            cfg, tags = gen_cross_config(rng)
         else:
             cfg, tags = gen_config(rng, valid_only=(rng.random() < 0.3))
         return {"cfg": enc(cfg), "gtags": sorted(set(tags))}
@@ -597,6 +721,7 @@ class ValidMsgs(Component):
                "alias": aliasing(cfg, rec["norm"]) if rec["norm"] is not None else 0}
         if rec["norm"] is not None:
             out["norm"] = enc(rec["norm"])
+            out["unaccounted"] = unaccounted_changes(cfg, rec["norm"])
         return out
 
     def request(self, case: dict) -> dict:
@@ -625,6 +750,10 @@ class ValidMsgs(Component):
         res.append(("total_typed_error", not impl_out["escapes"], f"non-ConfigError exception escaped: {impl_out['escapes'][:2]}"))
         res.append(("input_not_mutated", not impl_out["mutated"], f"input mutated by {impl_out['mutated']}"))
         res.append(("api_variants_agree", not impl_out["disagree"], "; ".join(impl_out["disagree"])[:400]))
+        un = impl_out.get("unaccounted") or []
+        res.append(("normalised_leaves_accounted_for", not un,
+                    "leaves of the returned config that differ from deep_merge(input, DEFAULTS) although no rule / no named "
+                    f"read-write of the normaliser accounts for them: {un[:4]}"))
         return res
 
     def monitor_requests(self, case, impl_out):
